@@ -486,7 +486,8 @@ def rand_pattern(rng, n, m=None, sym=None, diag=None, dens=None, unsorted=None, 
     if unsorted is None:
         unsorted = rng.random() < 0.35
     if explicit_zero is None:
-        explicit_zero = rng.random() < 0.15
+        explicit_zero = rng.random() < 0.3
+    pz = 0.0 if not explicit_zero else (explicit_zero if isinstance(explicit_zero, float) else float(rng.choice([0.2, 0.5])))
     M = rng.random((n, m)) < dens
     if sym and n == m:
         M = np.triu(M, 1)
@@ -535,7 +536,7 @@ def rand_pattern(rng, n, m=None, sym=None, diag=None, dens=None, unsorted=None, 
                 v = 0.0 if dzero[i] else float(rng.choice([1, 2, 4, 8, -2, 0.5]))
             else:
                 v = float(rng.choice([-4, -3, -2, -1, 1, 2, 3, 4]))
-                if explicit_zero and rng.random() < 0.2:
+                if explicit_zero and rng.random() < pz:
                     v = 0.0
             if cplx and v != 0.0:
                 v = complex(v, float(rng.integers(-3, 4)))
@@ -544,7 +545,7 @@ def rand_pattern(rng, n, m=None, sym=None, diag=None, dens=None, unsorted=None, 
         ip.append(len(ix))
     if (np.diff(ip) == 0).any():
         feats.append('empty_row')
-    feats += [f'diag={diag}', 'unsorted' if unsorted else 'sorted', 'sym' if sym else 'nonsym', f'dens={dens}']
+    feats += [f'diag={diag}', 'unsorted' if unsorted else 'sorted', 'sym' if sym else 'nonsym', f'dens={dens}'] + (['explicit_zeros'] if explicit_zero else [])
     return (np.array(ip, dtype=np.int32), np.array(ix, dtype=np.int32),
             np.array(dx, dtype=np.complex128 if cplx else np.float64), feats)
 
@@ -895,6 +896,33 @@ class Raw:
             self.call(rng, 'block_approx_ideal_restriction_pass2', [Rp, np.zeros(nnz, dtype=np.int32), np.zeros(nnz * bs * bs), ap, aj,
                                                                     rand_vec(rng, len(aj) * bs * bs) + 0.5, cp, cj, cx, cpts, split, bs] + opts)
 
+    # ---- constraint projection (satisfy_constraints_helper, calc_BtB): BSR pattern with RowsPerBlock x ColsPerBlock blocks, NullDim candidates;
+    #      buffer sizes as util/utils.py / aggregation/smooth.py build them: B is (n_bcol*cpb) x NullDim, UB is (n_brow*rpb) x NullDim,
+    #      BtBinv is n_brow x NullDim x NullDim, Bsq is (n_bcol*cpb) x NullDim(NullDim+1)/2
+    def constraints(self, rng):
+        for rep in range(3):
+            nbr, nbc = rand_n(rng), rand_n(rng)
+            rpb, cpb, nd = (int(v) for v in rng.integers(1, 4, size=3))
+            sp_, sj, _, feats = rand_pattern(rng, nbr, m=nbc, diag='none')
+            if nbc > 1 and len(sj) and rng.random() < 0.7:
+                sj[int(rng.integers(len(sj)))] = nbc - 1            # the last block column is where a wrong stride leaves B
+            # drop duplicates created above by rebuilding the rows
+            rows = [sorted(set(sj[sp_[i]:sp_[i + 1]].tolist())) for i in range(nbr)]
+            sp_ = np.zeros(nbr + 1, dtype=np.int32)
+            sp_[1:] = np.cumsum([len(r_) for r_ in rows])
+            sj = np.array([c_ for r_ in rows for c_ in r_], dtype=np.int32)
+            self.tr.ctx.update(feats=feats, blocks=[rpb, cpb, nd], shape=[nbr, nbc])
+            params = self.ov.pick(rng, 'satisfy_constraints_helper')
+            c = is_cplx(params)
+            self.call(rng, 'satisfy_constraints_helper',
+                      [rpb, cpb, nbr, nd, rand_vec(rng, nbc * cpb * nd, c), rand_vec(rng, nbr * rpb * nd, c), rand_vec(rng, nbr * nd * nd, c),
+                       sp_, sj, rand_vec(rng, len(sj) * rpb * cpb, c)], params)
+            params = self.ov.pick(rng, 'calc_BtB')
+            c = is_cplx(params)
+            bsq = nd * (nd + 1) // 2
+            self.call(rng, 'calc_BtB', [nd, nbr, cpb, rand_vec(rng, nbc * cpb * bsq, c), bsq,
+                                        np.zeros(nbr * nd * nd, dtype=np.complex128 if c else np.float64), sp_, sj], params)
+
     # ---- aggregation (smoothed_aggregation.h)
     def aggregation(self, rng):
         n = rand_n(rng, big=True)
@@ -903,10 +931,10 @@ class Raw:
         for name in ('standard_aggregation', 'naive_aggregation'):
             self.call(rng, name, [n, ip, ix, np.empty(n, dtype=np.int32), np.empty(n, dtype=np.int32)])
         self.call(rng, 'pairwise_aggregation', [n, ip, ix, np.abs(dx) + (rng.random(len(dx)) < 0.2), np.empty(n, dtype=np.int32), np.empty(n, dtype=np.int32)])
-        k = int(rng.integers(0, 5))
-        sx = dx.copy()
-        sj = ix.copy()
-        self.call(rng, 'truncate_rows_csr', [n, k, ip, sj, sx])
+        for rep in range(2):
+            tp_, tj_, tx_, tf = rand_pattern(rng, n, explicit_zero=float(rng.choice([0.0, 0.4])) or False)
+            self.tr.ctx.update(feats=tf)
+            self.call(rng, 'truncate_rows_csr', [n, int(rng.integers(0, 5)), tp_, tj_, tx_])
 
     # ---- graph.h
     def graph(self, rng):
@@ -958,11 +986,17 @@ class Raw:
             else:
                 self.call(rng, name, [mcols, n, ip, ix, dx, rand_vec(rng, n, c)], params)
         elif name == 'filter_matrix_rows':
-            ip, ix, dx, feats = rand_pattern(rng, n, cplx=c)
-            self.tr.ctx.update(feats=feats)
-            self.call(rng, name, [n, float(rng.choice([0.0, 0.25, 1.0, 2.0])), ip, ix, dx, bool(rng.integers(2))], params)
+            # thresholds compare |A_ij| with theta*|A_ii|: ties live at stored zeros next to a missing / zero diagonal
+            for lump in (True, False, True):
+                params = self.ov.pick(rng, name)
+                c = is_cplx(params)
+                ip, ix, dx, feats = rand_pattern(rng, n, cplx=c, diag=str(rng.choice(['none', 'some', 'zero', 'all'])),
+                                                 explicit_zero=float(rng.choice([0.0, 0.3, 0.6])) or False)
+                self.tr.ctx.update(feats=feats, lump=lump)
+                self.call(rng, name, [n, float(rng.choice([0.0, 0.25, 1.0, 2.0])), ip, ix, dx, lump], params)
         elif name in ('apply_distance_filter', 'apply_absolute_distance_filter'):
-            ip, ix, dx, feats = rand_pattern(rng, n)
+            ip, ix, dx, feats = rand_pattern(rng, n, diag=str(rng.choice(['none', 'some', 'zero', 'all'])),
+                                             explicit_zero=float(rng.choice([0.0, 0.3, 0.6])) or False)
             self.tr.ctx.update(feats=feats)
             self.call(rng, name, [n, float(rng.choice([0.5, 1.0, 2.0, 4.0])), ip, ix, np.abs(dx)], params)
         elif name == 'min_blocks':
@@ -986,7 +1020,7 @@ class Raw:
             else:
                 self.call(rng, name, [v, W, rand_vec(rng, k, c), n, *s], params)
 
-    SCENARIOS = ['point_relax', 'block_relax', 'classical_chain', 'classical_chain', 'aggregation', 'graph', 'helpers', 'cr', 'products', 'schwarz_raw', 'air_raw', 'rs_stress']
+    SCENARIOS = ['point_relax', 'block_relax', 'classical_chain', 'classical_chain', 'aggregation', 'graph', 'helpers', 'cr', 'products', 'schwarz_raw', 'air_raw', 'rs_stress', 'constraints']
 
 
 def wf_csr(n, p, j, m=None):
@@ -1125,6 +1159,42 @@ class Public:
             np.random.seed(int(rng.integers(2 ** 31)))
             self.attempt('energy_prolongation_smoother', SM.energy_prolongation_smoother, A, T, C, Bc, None, (False, {}),
                          krylov=str(rng.choice(['cg', 'cgnr', 'gmres'])), maxiter=2, degree=1)
+
+    def energy_bsr(self, rng):
+        """energy-minimising prolongation smoothing of a block matrix: the tentative prolongator has bs x k blocks (taller than wide for k < bs)"""
+        from pyamg.aggregation import aggregate as AG, tentative as TT, smooth as SM
+        from pyamg import strength as ST
+        import scipy.sparse as sp
+        nb = rand_n(rng)
+        bs = int(rng.choice([2, 3]))
+        k = int(rng.integers(1, 3))
+        bp, bj, _, feats = rand_pattern(rng, nb, sym=True, diag='all', explicit_zero=False)
+        self.tr.ctx.update(feats=feats + [f'bsr{bs}', f'candidates={k}'])
+        D = rand_vec(rng, len(bj) * bs * bs).reshape(-1, bs, bs)
+        A = sp.bsr_array((D, bj.copy(), bp.copy()), shape=(nb * bs, nb * bs), blocksize=(bs, bs))
+        A = sp.bsr_array(sp.csr_array(A + A.T) + sp.eye_array(nb * bs) * 40, blocksize=(bs, bs))
+        A.indptr, A.indices = A.indptr.astype(np.int32), A.indices.astype(np.int32)
+        C = self.attempt('symmetric_strength_of_connection(bsr)', ST.symmetric_strength_of_connection, A, theta=0.0)
+        if C is None:
+            return
+        C = sp.csr_array(C)
+        C.indptr, C.indices = C.indptr.astype(np.int32), C.indices.astype(np.int32)
+        r = self.attempt('standard_aggregation', AG.standard_aggregation, C)
+        if r is None or r[0].shape[1] == 0:
+            return
+        AggOp = sp.csr_array(r[0])
+        AggOp.indptr, AggOp.indices = AggOp.indptr.astype(np.int32), AggOp.indices.astype(np.int32)
+        B = np.ones((nb * bs, k))
+        if k > 1:
+            B[:, 1] = np.arange(nb * bs) % bs
+        r = self.attempt('fit_candidates(bsr)', TT.fit_candidates, AggOp, B)
+        if r is None:
+            return
+        T, Bc = r
+        np.random.seed(int(rng.integers(2 ** 31)))
+        self.attempt('energy_prolongation_smoother(bsr)', SM.energy_prolongation_smoother, A, T, A, Bc, None, (False, {}),
+                     krylov=str(rng.choice(['cg', 'cgnr', 'gmres'])), maxiter=2, degree=1)
+        self.attempt('jacobi_prolongation_smoother(bsr)', SM.jacobi_prolongation_smoother, A, T, A, Bc, weighting=str(rng.choice(['local', 'diagonal', 'block'])))
 
     def relaxation_api(self, rng):
         from pyamg.relaxation import relaxation as RX
@@ -1300,7 +1370,7 @@ class Public:
         if ml is not None:
             self.attempt('solve', ml.solve, b, maxiter=2, cycle=str(rng.choice(['V', 'W', 'F'])))
 
-    SCENARIOS = ['strength_split_interp', 'strength_split_interp', 'aggregation_sa', 'relaxation_api', 'relaxation_api', 'graph_api', 'utils_api', 'solvers_api']
+    SCENARIOS = ['strength_split_interp', 'strength_split_interp', 'aggregation_sa', 'energy_bsr', 'relaxation_api', 'relaxation_api', 'graph_api', 'utils_api', 'solvers_api']
 
 
 def child_main(argv):
@@ -1895,7 +1965,7 @@ def san_part(ctx, groups, budget, nworkers=8, only=None):
                'vertex_coloring_LDF', 'connected_components', 'breadth_first_search', 'bellman_ford', 'csc_scale_columns', 'csc_scale_rows',
                'filter_matrix_rows', 'apply_distance_filter', 'apply_absolute_distance_filter', 'min_blocks', 'pinv_array', 'apply_givens',
                'apply_householders', 'householder_hornerscheme', 'cr_helper', 'incomplete_mat_mult_bsr', 'incomplete_mat_mult_csr',
-               'extract_subblocks', 'overlapping_schwarz_csr', 'approx_ideal_restriction_pass1', 'approx_ideal_restriction_pass2',
+               'extract_subblocks', 'overlapping_schwarz_csr', 'satisfy_constraints_helper', 'calc_BtB', 'approx_ideal_restriction_pass1', 'approx_ideal_restriction_pass2',
                'block_approx_ideal_restriction_pass2'}
     for k in inventory:
         ctx.feat(('generator:raw+public:' if k in raw_gen else 'generator:public-api-only:') + k)
